@@ -398,6 +398,60 @@ def run_stalled_reader(role, ka, stall_s, obs):
     return []
 
 
+def run_failed_negotiation(role, idle, how, answer, obs):
+    ''' The peer's SESS_INIT cannot be accepted (a segment MRU of zero, a node id that is no text): the endpoint sends
+    SESS_TERM(contact failure) and is terminating without ever having had a session.  Answered with the peer's SESS_TERM it
+    closes; answered with nothing it still closes once its configured idle time has passed. '''
+    from vf.world.sim import Sim
+    from vf import tcpcl_harness as th
+    sim = Sim(seed=0, policy='eager')
+    sock_a, sock_b = sim.net.tcp_pair()
+    cfg = th.make_config('dtn://under-test/', idle_time=idle, keepalive_time=0)
+    if role == 'passive':
+        end = th.Endpoint(sim, 'E', cfg, sock_b, passive=True, peer_addr=('10.0.0.1', 40001))
+        peer_sock, end_sock = sock_a, sock_b
+    else:
+        end = th.Endpoint(sim, 'E', cfg, sock_a, passive=False, peer_addr=('10.0.0.2', 4556))
+        peer_sock, end_sock = sock_b, sock_a
+    end.start()
+    sim.settle(20000)
+
+    def write(data):
+        peer_sock.tx.write(data)
+        sim.settle(50000)
+
+    write(tw.encode(dict(type='contact', flags=0)))
+    init = dict(type='SESS_INIT', keepalive=0, segment_mru=2 ** 20, transfer_mru=2 ** 30, nodeid=b'dtn://peer/', ext=[])
+    if how == 'mru0':
+        init['segment_mru'] = 0
+    else:
+        init['nodeid'] = b'dtn://peer/\x00'
+    write(tw.encode(init))
+    obs['runs'] += 1
+    obs['failed_negotiation_runs'] = obs.get('failed_negotiation_runs', 0) + 1
+    msgs = [m for (m, _e) in tw.parse_stream(end_sock.tx.all_bytes())[0]]
+    terms = [m for m in msgs if m['type'] == 'SESS_TERM']
+    what = '%s endpoint, idle time %d s, peer SESS_INIT refused (%s)' % (role, idle, 'segment MRU 0' if how == 'mru0' else 'node id with NUL')
+    if sim.world.callback_errors:
+        return ['%s: callback raised %s' % (what, sim.world.callback_errors[0].exc_type)]
+    if end_sock.closed:
+        return []       # closing at once is a legal way to refuse as well
+    if len(terms) != 1 or terms[0]['reason'] != 4:
+        return ['%s: expected SESS_TERM(contact failure), endpoint wrote %s' % (what, [(m['type'], m.get('reason')) for m in msgs][-2:])]
+    if answer:
+        write(tw.encode(dict(type='SESS_TERM', flags=tw.TERM_REPLY, reason=4)))
+        sim.advance(100 * MS)
+        if not end_sock.closed:
+            rejects = [m for m in [mm for (mm, _e) in tw.parse_stream(end_sock.tx.all_bytes())[0]] if m['type'] == 'MSG_REJECT']
+            return ['%s: the peer answered with its SESS_TERM but the endpoint did not close (%d MSG_REJECT sent)' % (what, len(rejects))]
+    else:
+        sim.advance((idle * 1000 + 50) * MS)
+        if not end_sock.closed:
+            return ['%s: terminating and hearing nothing further, still open %.3f s after its SESS_TERM' % (what, idle + 0.05)]
+    obs['mute_peer_closures'] += 1
+    return []
+
+
 def run_announced(role, seg_mru, xfer_mru, keepalive, obs, nodeid='dtn://announcer/', raw_nodeid=None):
     ''' A scripted peer announces arbitrary values; get_session_parameters() must report them as announced. '''
     from vf.props import c17
@@ -516,6 +570,7 @@ def cases(tier, seed):
     out.append(dict(id='announced', kind='announced'))
     out.append(dict(id='silent-after-reply', kind='silent'))
     out.append(dict(id='stalled-reader', kind='stalled'))
+    out.append(dict(id='failed-negotiation', kind='failed-negotiation'))
     rng = random.Random(seed)
     for idx in range(120 if thorough else 16):
         out.append(dict(id='adapt-%d' % idx, kind='adaptive', seed=seed * 31 + idx,
@@ -592,6 +647,13 @@ def run_case(case):
         for role in ('passive', 'active'):
             for (ka, stall_s) in ((1, 2.5), (2, 2.1), (3, 10), (2, 0.5)):
                 note(run_stalled_reader(role, ka, stall_s, obs), 'stalled', dict(role=role, ka=ka, stall_s=stall_s))
+    elif case['kind'] == 'failed-negotiation':
+        for role in ('passive', 'active'):
+            for idle in (1, 5):
+                for how in ('mru0', 'nul'):
+                    for answer in (True, False):
+                        params = dict(role=role, idle=idle, how=how, answer=answer)
+                        note(run_failed_negotiation(role, idle, how, answer, obs), 'failed-negotiation', params)
     elif case['kind'] == 'silent':
         for role in ('passive', 'active'):
             for idle in (2, 5):
